@@ -56,10 +56,11 @@ func (e *Exec) Classify(prefix string) []Finding {
 		if kind == "delete-refused-or-failed" {
 			kind += ":" + Letters(v[strings.LastIndex(v, "): ")+3:], 40)
 		}
-		if kind != "" && strings.HasPrefix(kind, "delete-refused-or-failed") && strings.Contains(e.DeleteTags, "r6pre") {
-			kind += "|r6pre"
+		vafter := ""
+		if e.DeleteTags != "" && strings.HasPrefix(kind, "delete-refused-or-failed") {
+			vafter = "|after-delete:" + strings.TrimSuffix(e.DeleteTags, ",")
 		}
-		out = append(out, Finding{Sig: prefix + ":" + kind, What: v})
+		out = append(out, Finding{Sig: prefix + ":" + kind + vafter, What: v})
 	}
 	after := ""
 	if e.DeleteTags != "" {
